@@ -1,0 +1,12 @@
+//go:build verif
+
+package guard
+
+// VerifSnapshot returns a copy of the guard's queue and its ID counter (verification builds only).
+func VerifSnapshot(gd Guard) (queue []int64, largest int64) {
+	g := gd.(*guard)
+	g.cond.L.Lock()
+	defer g.cond.L.Unlock()
+	queue = append([]int64(nil), g.waitForUnlock...)
+	return queue, g.largestGuardID
+}
